@@ -30,6 +30,9 @@ func seqProfile(prop string, cas int, tier string) Profile {
 		p.Timed = cas%5 == 4
 		p.RestartEvery = 30
 		p.WalkEvery = 25
+		if cas%8 == 5 {
+			p.ManyObjs = 45 // a directory with many long names
+		}
 		if tier == "thorough" {
 			p.NOps = 400
 		}
@@ -106,7 +109,7 @@ func seqProfile(prop string, cas int, tier string) Profile {
 		}
 	case "C12":
 		p.NOps = 220
-		p.DiskBlocks = []uint64{1800, 2400, 3200}[cas%3]
+		p.DiskBlocks = []uint64{1800, 2400, 3200, 12000}[cas%4]
 		p.PDead, p.PWrongKind, p.PBadName = 1, 2, 2
 		p.Recycle = true
 		p.Sweep = true
@@ -144,7 +147,7 @@ func crashCfg(prop string, cas int, tier string) CrashCfg {
 		}
 	case "C04":
 		c.BigFiles = cas%2 == 0
-		c.Continue = false
+		c.ContinueEvery = 3
 		c.CutStride = 2
 		c.Depth2Every = 0
 	case "C05":
@@ -153,9 +156,10 @@ func crashCfg(prop string, cas int, tier string) CrashCfg {
 		c.Depth2Every = 0
 		c.NOps = 30
 	case "C12":
-		c.Continue = false
-		c.CutStride = 2
+		c.BigFiles = true
+		c.CutStride = 3
 		c.Depth2Every = 0
+		c.ContinueEvery = 2
 	}
 	return c
 }
@@ -212,6 +216,8 @@ func concCfg(prop string, cas int, tier string) ConcCfg {
 	c := ConcCfg{Name: prop, Hist: 25, Clients: 3 + cas%2, OpsPer: 4 + cas%3, BigFile: cas%2 == 1, Unstable: cas%5 != 4, RPC: cas%4 == 2,
 		Yield: cas%6 != 5, LowChild: cas%3 != 2, Procs: []int{2, 4, 16}[cas%3]}
 	c.Focus = cas%4 == 3
+	c.FileFocus = cas%8 == 5
+	c.HalfFreed = cas%8 == 6 || cas%8 == 1
 	if tier == "thorough" {
 		c.Hist = 50
 	}
